@@ -1158,3 +1158,77 @@ func FunSymbols(t *Term, into map[string]bool, seen map[int]bool) {
 		}
 	}
 }
+
+// HasNonlinear reports whether t contains a product of two non-literal terms.
+func HasNonlinear(t *Term, seen map[int]bool) bool {
+	if seen[t.ID] {
+		return false
+	}
+	seen[t.ID] = true
+	if t.Kind == KApp && t.Op == "*" && len(t.Args) == 2 && t.Args[0].Kind != KLit && t.Args[1].Kind != KLit {
+		return true
+	}
+	if t.Kind == KApp && (t.Op == "div" || t.Op == "mod" || t.Op == "/") && len(t.Args) == 2 && t.Args[1].Kind != KLit {
+		return true
+	}
+	for _, a := range t.Args {
+		if HasNonlinear(a, seen) {
+			return true
+		}
+	}
+	return false
+}
+
+// Linearize replaces nonlinear products and divisions by uninterpreted applications.
+func (c *Ctx) Linearize(t *Term) *Term {
+	cache := map[*Term]*Term{}
+	var rec func(*Term) *Term
+	rec = func(t *Term) *Term {
+		if r, ok := cache[t]; ok {
+			return r
+		}
+		var r *Term
+		switch t.Kind {
+		case KConst, KLit, KVar:
+			r = t
+		case KQuant:
+			var pats [][]*Term
+			for _, ps := range t.Pats {
+				var np []*Term
+				for _, p := range ps {
+					np = append(np, rec(p))
+				}
+				pats = append(pats, np)
+			}
+			r = c.Quant(t.Op, t.Bound, rec(t.Args[0]), pats...)
+		default:
+			args := make([]*Term, len(t.Args))
+			for i, a := range t.Args {
+				args[i] = rec(a)
+			}
+			nl := len(args) == 2 && args[0].Kind != KLit && args[1].Kind != KLit
+			switch {
+			case t.Op == "*" && nl && t.Sort == Int:
+				a, b := args[0], args[1]
+				if a.ID > b.ID {
+					a, b = b, a
+				}
+				r = c.mk(KApp, "nl_mul", Int, a, b)
+			case t.Op == "*" && nl && t.Sort == Real:
+				a, b := args[0], args[1]
+				if a.ID > b.ID {
+					a, b = b, a
+				}
+				r = c.mk(KApp, "nl_mulr", Real, a, b)
+			case (t.Op == "div" || t.Op == "mod") && len(args) == 2 && args[1].Kind != KLit:
+				c.DeclareFun("nl_"+t.Op, []Sort{Int, Int}, Int)
+				r = c.mk(KApp, "nl_"+t.Op, Int, args...)
+			default:
+				r = c.mk(t.Kind, t.Op, t.Sort, args...)
+			}
+		}
+		cache[t] = r
+		return r
+	}
+	return rec(t)
+}
